@@ -46,6 +46,10 @@ ASSUMPTIONS = [
     "constants/variables defined as `symbol+n`: only when an earlier definition makes the expression computable in "
     "pass 1 (manual: 'an EQU containing forward references will not be done at all in the first pass'), FORWARD "
     "restricting that pass-1 lookup to the current section; never in terms of itself",
+    "string-valued symbols (names txt, msg; value = the decimal digits of a number) are read as val(name): VAL with a "
+    "symbol that pass 1 does not know is a fatal 'internal error' in asl (by-catch, not C13), so a string symbol is "
+    "only read where pass 1 already finds a string under that name, and faulty string reads are not generated into "
+    "the error runs; one name is never used for strings and integers; no string labels, expressions, macro bodies",
     "PUSHV/POPV arguments address symbols that exist at that point exactly (own level plainly, other levels with a "
     "qualifier); POPV only into variables; stacks are balanced at the end of the program; stack names are "
     "case-insensitive without -U ('has to fulfill the general rules for symbol names')",
@@ -247,6 +251,8 @@ def item_classes(items, classes, depth=0):
             classes.add("def:" + it["how"] + ("-expr" if it.get("of") else ""))
         elif k == "pub":
             classes.add("global" if it.get("g") else "public")
+            if it.get("more"):
+                classes.add("export-list")
             q = it.get("q")
             classes.add("export-to:" + ("global" if q is None else "name" if q[0] == "=" else "parent"))
         elif k in ("fwd", "call", "tdef", "ndef", "cdef"):
@@ -287,6 +293,7 @@ def show(case):
 
 NAMES = ["sym", "lab", "val", "cnt", "foo", "bar", "k9", "dot.ted"]
 SECTS = ["ModA", "ModB", "ProcA", "Sub", "Inner", "Leaf", "sym", "lab"]
+SNAMES = ["txt", "msg"]          # names of string-valued symbols (read through VAL())
 TEMPS = ["t", "loop"]
 DOTS = ["loop", "skip"]
 STACKS = ["", "stk", "Other", "Aaa"]
@@ -328,6 +335,9 @@ class Gen:
     def val(self):
         self.value += 8
         return self.value
+
+    def is_str(self, name):
+        return self.fold(name) in self.sfold
 
     def spell(self, base):
         d = self.d
@@ -396,9 +406,14 @@ class Gen:
                     if 1 not in self.modes and d.bool(0.4):
                         x = d.choice([x.upper(), x.lower()])
                     k = len(self.frames) - 1 - i
-                    return dict(k="ref", n=x, q=d.choice([None, None, "P%d" % k]))
+                    it = dict(k="ref", n=x, q=d.choice([None, None, "P%d" % k]))
+                    if self.is_str(x.split("_")[-1]):
+                        it["str"] = True
+                    return it
                 base = d.choice(self.visible_names()) if d.bool(0.9) else d.choice(self.names)
                 it = dict(k="ref", n=self.spell(base))
+                if self.is_str(base):
+                    it["str"] = True
                 it.update(self.qualifier(base))
                 return it
         it = dict(k="ref", n=name)
@@ -415,6 +430,9 @@ class Gen:
         N = self.fold(name)
         if N in f.exported:
             return None         # owed to a PUBLIC/GLOBAL/FORWARD: written by pending_def()
+        is_str = self.is_str(name)
+        if is_str and how is None:
+            how = d.weighted([(4, "equ"), (1, "="), (1, "equ2")] + ([] if const_only else [(5, "set"), (2, ":=")]))
         if how is None:
             how = d.weighted([(4, "equ"), (3, "lab:"), (2, "lab"), (1, "="), (1, "equ2"), (1, "label")]
                              + ([] if const_only else [(3, "set"), (1, ":=")]))
@@ -432,9 +450,11 @@ class Gen:
         if old == "var" and kind == "var" and 1 in self.modes and d.bool(0.8):
             name = f.spelled[N]
         it = dict(k="def", n=name, how=how)
+        if is_str:
+            it["str"] = True
         if how not in sm.LABEL_HOW:
             it["v"] = self.val()
-            if d.bool(0.2):
+            if not is_str and d.bool(0.2):
                 of = self.alias_target(f, N if kind == "var" and old == "var" else None, N, kind)
                 if of is not None:
                     it["of"] = of
@@ -454,11 +474,12 @@ class Gen:
         """a symbol that has a value at this point (written earlier), addressed plainly or with a qualifier"""
         d = self.d
         if selfname is not None and d.bool(0.6):
-            mine = [x for x in self.sym_args(True) if self.fold(x[0]) == selfname and None in x[1]]
+            mine = [x for x in self.sym_args(True, typ=False) if self.fold(x[0]) == selfname and None in x[1]]
             if mine:
                 return dict(n=mine[0][0], q=None)
         # never the name being defined (a constant defined by itself does not converge), variables rarely
-        pool = self.sym_args(False) if kind == "var" or d.bool(0.1) else self.sym_args(False, consts_only=True)
+        pool = (self.sym_args(False, typ=False) if kind == "var" or d.bool(0.1)
+                else self.sym_args(False, consts_only=True, typ=False))
         pool = [x for x in pool if self.fold(x[0]) != N]
         if not pool:
             return None
@@ -519,7 +540,11 @@ class Gen:
         d = self.d
         name, kind, dest = f.pending.pop(d.int(0, len(f.pending) - 1))
         how = d.weighted([(4, "equ"), (3, "lab:"), (2, "lab"), (1, "="), (1, "label")])
+        if self.is_str(name):
+            how = d.choice(["equ", "=", "equ2"])
         it = dict(k="def", n=name, how=how)
+        if self.is_str(name):
+            it["str"] = True
         if how not in sm.LABEL_HOW:
             it["v"] = self.val()
         N = self.fold(name)
@@ -624,7 +649,7 @@ class Gen:
         return self.wrap(out, f)
 
     # ---- PUSHV / POPV
-    def sym_args(self, want_var, consts_only=False):
+    def sym_args(self, want_var, consts_only=False, typ=None):
         """exactly addressed symbols that exist at this point: list of dict(n, q)"""
         depth = len(self.frames) - 1
         out = []
@@ -634,7 +659,9 @@ class Gen:
                 N = self.fold(n)
                 if want_var and f.kinds.get(N) != "var":
                     continue
-                if "." in n:
+                if "." in n and not n.endswith("dot.ted"):
+                    continue
+                if typ is not None and self.is_str(n) != typ:
                     continue
                 forms = [("P%d" % k)]
                 if k == 0:
@@ -648,13 +675,15 @@ class Gen:
 
     def scene_stack(self, f):
         d = self.d
-        vars_ = self.sym_args(True)
+        typ = bool(self.sym_args(True, typ=True)) and d.bool(0.4)      # a scene saves strings or integers
+        vars_ = self.sym_args(True, typ=typ)
         if not vars_:
             x = self.definition(f, how="set")
             return [x] if x is not None else []
-        allsyms = self.sym_args(False)
+        allsyms = self.sym_args(False, typ=typ)
         out = []
         depth = {}
+        flag = dict(str=True) if typ else {}
         stacks = d.shuffle(STACKS)[:d.weighted([(3, 1), (3, 2), (2, 3), (1, 4)])]
 
         def arg(pool):
@@ -675,16 +704,16 @@ class Gen:
             for _ in range(d.int(0, 2)):
                 n, forms = d.choice(vars_)
                 if d.bool(0.5):
-                    out.append(dict(k="ref", n=n, q=d.choice(forms)))
+                    out.append(dict(k="ref", n=n, q=d.choice(forms), **flag))
                 elif None in forms:
-                    out.append(dict(k="def", n=n, how=d.choice(["set", ":="]), v=self.val()))
+                    out.append(dict(k="def", n=n, how=d.choice(["set", ":="]), v=self.val(), **flag))
         for s in stacks:
             while depth.get(s, 0):
                 n = d.int(1, min(3, depth[s]))
                 out.append(dict(k="popv", s=s, a=[arg(vars_) for _ in range(n)]))
                 depth[s] -= n
                 n2, forms = d.choice(vars_)
-                out.append(dict(k="ref", n=n2, q=d.choice(forms)))
+                out.append(dict(k="ref", n=n2, q=d.choice(forms), **flag))
         self.take(len(out))
         if len(self.frames) <= 4 and len(out) > 2 and d.bool(0.3):
             # "stacks are a global resource, i.e. their names are not local to sections": finish inside a section
@@ -760,6 +789,8 @@ class Gen:
                     made_sect = True
             elif what == "export":
                 self.export(f, out)
+                if d.bool(0.4):
+                    self.export(f, out)
             elif what == "call":
                 self.call(f, out)
             elif what == "named":
@@ -784,7 +815,20 @@ class Gen:
                 out.append(x)
         while f.pending:
             self.pending_def(f, out)
-        return out
+        return self.merge_exports(out)
+
+    def merge_exports(self, out):
+        """PUBLIC a / PUBLIC b -> PUBLIC a,b (same for GLOBAL, FORWARD) for some neighbours"""
+        d = self.d
+        res = []
+        for it in out:
+            p = res[-1] if res else None
+            if (p is not None and it["k"] in ("pub", "fwd") and p["k"] == it["k"] and bool(p.get("g")) == bool(it.get("g"))
+                    and "more" not in it and d.bool(0.6)):
+                p.setdefault("more", []).append([it["n"], it.get("q")])
+            else:
+                res.append(it)
+        return res
 
     def section(self, f):
         d = self.d
@@ -833,7 +877,7 @@ class Gen:
         d = self.d
         pre = []
         body = []
-        labels = d.shuffle(self.names)[:d.int(1, 2)]
+        labels = d.shuffle(self.inames)[:d.int(1, 2)]
         for b in labels:
             sp = self.spell(b)
             body.append(dict(k="def", n=sp, how=d.choice(["lab", "lab:"])))
@@ -841,7 +885,7 @@ class Gen:
                 body.append(dict(k="ref", n=sp if 1 in self.modes else self.spell(b), q=None))
         body = d.shuffle(body)
         if d.bool(0.6):
-            cand = [n for n in f.vars if self.fold(n) not in {self.fold(self_) for self_ in labels}]
+            cand = [n for n in f.vars if self.fold(n) not in {self.fold(self_) for self_ in labels} and not self.is_str(n)]
             if cand:
                 v = d.choice(cand)
                 body.insert(d.int(0, len(body)), dict(k="def", n=v, how=d.choice(["set", ":="]), v=d.int(1, 7),
@@ -871,10 +915,13 @@ class Gen:
     def irp(self, f):
         """IRP over symbol names: the references are made by parameter substitution"""
         d = self.d
-        args = [self.spell(d.choice(self.visible_names())) for _ in range(d.int(1, 3))]
+        vis = self.visible_names()
+        typ = self.is_str(d.choice(vis))
+        vis = [b for b in vis if self.is_str(b) == typ]
+        args = [self.spell(d.choice(vis)) for _ in range(d.int(1, 3))]
         body = []
         for _ in range(d.int(1, 3)):
-            x = dict(k="ref", n="arg")
+            x = dict(k="ref", n="arg", **(dict(str=True) if typ else {}))
             x.update(self.qualifier())
             if d.bool(0.3):
                 x = self.ref()
@@ -887,7 +934,7 @@ class Gen:
         glob = d.bool(0.2)
         body = []
         defs = []
-        labels = d.shuffle(self.names)[:d.int(1, 2)]
+        labels = d.shuffle(self.inames)[:d.int(1, 2)]
         for b in labels:
             x = dict(k="def", n=self.spell(b), how=d.choice(["lab", "lab:"]))
             body.append(x)
@@ -897,7 +944,7 @@ class Gen:
                 body.append(dict(k="ref", n=self.spell(b), q=None))
         body = d.shuffle(body)
         for _ in range(d.int(0, 2)):
-            other = [b for b in self.names if b not in labels and self.fold(b) not in {self.fold(n) for n, _ in defs}]
+            other = [b for b in self.inames if b not in labels and self.fold(b) not in {self.fold(n) for n, _ in defs}]
             if not other:
                 break
             b = d.choice(other)
@@ -935,7 +982,10 @@ def strategy_(d, tier):
     modes = d.weighted([(4, [0]), (2, [1]), (3, [0, 1])])
     g = Gen(d, tier, modes)
     prefix = d.weighted([(12, ""), (1, "x" * 40), (1, "LongCommonPrefix" * 12 + "x"), (1, "q" * 200)])
-    g.names = [prefix + n for n in d.shuffle(NAMES)[:d.int(1, 4)]]
+    g.inames = [prefix + n for n in d.shuffle(NAMES)[:d.int(1, 4)]]
+    g.snames = [prefix + n for n in d.shuffle(SNAMES)[:d.weighted([(5, 0), (3, 1), (2, 2)])]]
+    g.names = g.inames + g.snames
+    g.sfold = {g.fold(n) for n in g.snames}
     g.procs = d.bool(0.3)
     g.target_depth = d.weighted([(1, 0), (2, 1), (3, 2), (3, 3), (3, 4)])
     cpu = d.choice(sorted(sm.CPUS))
@@ -1031,6 +1081,18 @@ def fixed_cases(tier):
     out.append(C(V + [P("", "var1", "var2", "var3")] + W + [O("", "var1", "var2", "var3")] + RR, cpu="z80"))
     out.append(C(V + [P("st", "var1"), P("", "var2"), P("ST", "var3"), O("", "var1"), O("St", "var2", "var3")] + RR))
     out.append(C(V + [P("st", "var1"), P("ST", "var2"), O("ST", "var3"), O("st", "var3")] + RR, modes=(1,)))
+    # regression: PUSHV/POPV of string values (the stack needs its own copy of the string)
+    SS = lambda n, v, how="set": dict(k="def", n=n, how=how, v=v, str=True)
+    SR = lambda n, q=None: dict(k="ref", n=n, q=q, str=True)
+    for cpu in sorted(sm.CPUS):
+        out.append(C([SS("txt", 0x2000), SS("msg", 0x2008), P("", "txt", "msg"), SS("txt", 0x2010), SS("msg", 0x2018),
+                      SS("txt", 0x2020), SR("txt"), SR("msg"), O("", "msg", "txt"), SR("txt"), SR("msg"),
+                      P("st", "txt"), P("st", "msg"), SS("msg", 0x2028), O("st", "txt"), SS("msg", 0x2030), O("st", "msg"),
+                      SR("txt"), SR("msg")], cpu=cpu))
+    out.append(C([SS("txt", 0x2000, "equ"), S("A", [SS("txt", 0x2008), P("", "txt"), SS("txt", 0x2010), SR("txt"),
+                                                     SR("txt", ""), SR("txt", "P1"), O("", "txt"), SR("txt"),
+                                                     S("B", [SR("txt"), SR("txt", "=A"), SR("txt", "P2")])])],
+                 modes=(0, 1)))
     # GLOBAL as in the manual: A_SYM and B_SYM; two levels: A_B_SYM resp. B_SYM in A
     G = lambda n, q=None: dict(k="pub", n=n, q=q, g=True)
     out.append(C([S("A", [G("SYM", "P"), E("SYM", 0x2000), R("SYM")]), S("B", [G("SYM"), E("SYM", 0x2008)]),
